@@ -12,6 +12,7 @@ structure St where
   points : List (Name × Comp) := []
   hist : History := []
   decls : List (Comp × Decl) := []
+  hhist : HHistory := []
 
 def nats (sep : Char) (s : String) : Option (List Nat) :=
   if s = "-" ∨ s = "" then some [] else
@@ -76,6 +77,54 @@ def sortDedup (l : List Nat) : List Nat := l.foldr insSorted []
 def showVal : Val → String
   | .none => "N" | .atom n => s!"A{n}" | .multi _ => "M" | .resp n => s!"R{n}" | .skipResp _ _ => "S" | .noneResp => "Z"
 
+/-- hierarchical entries: `name:comp:P|D:c.c;…` -/
+def parseHEntries (s : String) : Option (List HEntry) :=
+  if s = "-" then some [] else
+  (s.splitOn ";").foldr (fun p acc => match acc, p.splitOn ":" with
+    | some l, [n, v, k, cs] => match n.toNat?, v.toNat?, nats '.' cs with
+      | some n, some v, some cs =>
+        if k = "P" then some (⟨n, v, true, cs⟩ :: l) else if k = "D" then some (⟨n, v, false, cs⟩ :: l) else none
+      | _, _, _ => none
+    | _, _ => none) (some [])
+
+/-- the flat reading of a hierarchical history, when it has that shape: class 0 declares the points, every
+other class derives from it and defines datasources only -/
+def toFlat (h : HHistory) : Option (List (Name × Comp) × History) :=
+  match h with
+  | [] => none
+  | top :: rest =>
+    if top.parents.isEmpty && top.entries.all (·.isPoint) &&
+        rest.all (fun cd => cd.entries.all (fun e => !e.isPoint) && cd.parents.getLast? == some 0) then
+      some (top.entries.map (fun e => (e.name, e.comp)),
+            rest.map (fun cd => ⟨cd.parents == [0], cd.entries.map (fun e => ⟨e.name, e.comp, e.ctxs⟩)⟩))
+    else none
+
+def rootOfPts (pts : List (Name × Comp)) : Root where
+  registry n := (pts.find? (·.1 == n)).map (·.2)
+  nameOf c := (pts.find? (·.2 == c)).map (·.1)
+
+def ctxsOfComp (h : HHistory) (v : Comp) : List Comp :=
+  h.flatMap (fun cd => cd.entries.flatMap (fun e => if e.comp = v then e.ctxs else []))
+
+/-- hypothesis (H) of `hier_point_value_partial`, computed: every datasource reachable from a registry point
+is in the handler table of the point's chain root for each of its contexts -/
+def famCheck (h : HHistory) (r : HReg) : Bool :=
+  let idx := (List.range h.length).zip h
+  idx.all (fun (k, cd) => cd.entries.all (fun e =>
+    if e.isPoint then
+      match handlerRoot r (k :: cd.parents) e.name with
+      | none => false
+      | some t => (famLeaves r (h.length + 1) e.comp).all (fun v =>
+          (ctxsOfComp h v).all (fun c => (r.handlers t e.name c).contains v))
+    else true))
+
+def brokerText (log : List Comp) (b : Broker) (u : List Comp) (isPt : Comp → Bool) : String :=
+  let inst := u.filterMap (fun c => (b.inst c).map (fun v => s!"{c}:{showVal v}"))
+  let miss := u.filterMap (fun c => (b.missing c).map (fun m =>
+    s!"{c}:{showNats ";" m.required}/{"&".intercalate (m.atLeastOne.map (showNats ";"))}"))
+  "inst=" ++ " ".intercalate inst ++ "|missing=" ++ " ".intercalate miss ++ "|inv=" ++
+    showNats "," (sortDedup (log.filter (fun c => !isPt c)))
+
 def handle (s : St) (fs : List String) : St × String :=
   match fs with
   | ["new"] => ({}, "ok")
@@ -117,6 +166,48 @@ def handle (s : St) (fs : List String) : St × String :=
         s!"{c}:{showNats ";" m.required}/{"&".intercalate (m.atLeastOne.map (showNats ";"))}"))
       (s, "inst=" ++ " ".intercalate inst ++ "|missing=" ++ " ".intercalate miss ++ "|inv=" ++
         showNats "," (sortDedup (log.filter (fun c => (s.root.nameOf c).isNone))))   -- the generated bodies only (a point's body is RegistryPoint.__call__)
+    | _, _, _, _, _ => (s, "bad-op")
+  | ["hclass", ps, es] =>
+    match nats ',' ps, parseHEntries es with
+    | some ps, some es =>
+      if ps.all (· < s.hhist.length) then ({ s with hhist := s.hhist ++ [⟨ps, es⟩] }, "ok") else (s, "bad-op")
+    | _, _ => (s, "bad-op")
+  | ["hreg", points, comps] =>
+    match nats ',' points, nats ',' comps with
+    | some ps, some cs =>
+      let r := hRegister s.hhist
+      let deps := ";".intercalate (ps.map (fun p => s!"{p}:{showNats "," (r.deps p)}"))
+      let ign := ";".intercalate ((cs.filter (fun c => !(r.ignore c).isEmpty)).map
+        (fun c => s!"{c}:{showNats "," (sortDedup (r.ignore c))}"))
+      let pts := if ps.all r.isPoint then "" else "|not-a-point"
+      let fl := match toFlat s.hhist with
+        | none => "n/a"
+        | some (pts, fh) =>
+          let fr := register (rootOfPts pts) fh
+          if pts.all (fun np => fr.deps np.1 == r.deps np.2) && cs.all (fun c => sortDedup (fr.ignore c) == sortDedup (r.ignore c))
+          then "agree" else "DISAGREE"
+      (s, s!"deps={deps}|ign={ign}{pts}|H={if famCheck s.hhist r then "ok" else "FAIL"}|flat={fl}")
+    | _, _ => (s, "bad-op")
+  | ["hsup", t, n, c] =>
+    match t.toNat?, n.toNat?, c.toNat? with
+    | some t, some n, some c =>
+      (s, match ((hRegister s.hhist).handlers t n c).getLast? with | some v => toString v | none => "none")
+    | _, _, _ => (s, "bad-op")
+  | ["hrun", seeds, order, keys, univ, outs] =>
+    match nats ',' seeds, nats ',' order, nats ',' keys, nats ',' univ, parseOutcomes outs with
+    | some sd, some o, some ks, some u, some outs =>
+      let r := hRegister s.hhist
+      let w := hWorld (s.env outs) r
+      let seed : Inst := fun c => if sd.contains c then some (.atom 0) else none
+      let (log, b) := runLogged w (fun c => ks.contains c) false o (Broker.seeded seed)
+      let txt := brokerText log b u r.isPoint
+      let fl := match toFlat s.hhist with
+        | none => "n/a"
+        | some (pts, fh) =>
+          let root := rootOfPts pts
+          let (log', b') := runLogged (world root (s.env outs) (register root fh)) (fun c => ks.contains c) false o (Broker.seeded seed)
+          if brokerText log' b' u (fun c => (root.nameOf c).isSome) == txt then "agree" else "DISAGREE"
+      (s, txt ++ "|flat=" ++ fl)
     | _, _, _, _, _ => (s, "bad-op")
   | _ => (s, "bad-op")
 
